@@ -445,7 +445,7 @@ func (c *Ctx) retentionCancel(rule string) {
 					return
 				}
 				// in the visitor closure the arm must return false
-				if fn.Parent() != nil && fn.Signature.Results().Len() == 1 {
+				if visitorSig(fn) {
 					bad := eng.BlockReaches(arm, func(y ssa.Instruction) bool {
 						ret, ok := y.(*ssa.Return)
 						if !ok {
@@ -508,14 +508,57 @@ func (c *Ctx) retentionCancel(rule string) {
 		return false
 	}
 	nVis := 0
+	// the visitors: function values handed to VisitMailboxes (function literals, or method
+	// values through their bound wrapper)
+	visitors := map[*ssa.Function]bool{}
 	for _, fn := range scannerFns {
-		if fn.Parent() == nil || fn.Signature.Results().Len() != 1 || fn.Signature.Params().Len() != 1 {
+		eng.EachInstr(fn, func(in ssa.Instruction) {
+			call, ok := in.(*ssa.Call)
+			if !ok {
+				return
+			}
+			name := ""
+			if call.Call.IsInvoke() {
+				name = call.Call.Method.Name()
+			} else if g := eng.StaticCallee(call.Common()); g != nil {
+				name = g.Name()
+			}
+			if name != "VisitMailboxes" {
+				return
+			}
+			for _, a := range call.Call.Args {
+				mc, ok := a.(*ssa.MakeClosure)
+				if !ok {
+					continue
+				}
+				g, _ := mc.Fn.(*ssa.Function)
+				if g == nil {
+					continue
+				}
+				if g.Parent() != nil {
+					visitors[g] = true
+					continue
+				}
+				eng.EachInstr(g, func(y ssa.Instruction) {
+					if c2, ok := y.(*ssa.Call); ok {
+						if h := eng.StaticCallee(c2.Common()); h != nil && eng.InModule(h) {
+							visitors[h] = true
+						}
+					}
+				})
+			}
+		})
+	}
+	var visFns []*ssa.Function
+	for fn := range visitors {
+		visFns = append(visFns, fn)
+	}
+	sortFuncs(visFns)
+	for _, fn := range visFns {
+		if fn.Signature.Results().Len() != 1 {
 			continue
 		}
 		if b, ok := fn.Signature.Results().At(0).Type().Underlying().(*types.Basic); !ok || b.Kind() != types.Bool {
-			continue
-		}
-		if _, ok := fn.Signature.Params().At(0).Type().Underlying().(*types.Slice); !ok {
 			continue
 		}
 		nVis++
@@ -582,4 +625,17 @@ func reachesSync(fn, target *ssa.Function) bool {
 		return hit
 	}
 	return walk(fn)
+}
+
+// visitorSig: func([]T) bool — the shape of a VisitMailboxes callback (literal or method).
+func visitorSig(fn *ssa.Function) bool {
+	sig := fn.Signature
+	if sig.Results().Len() != 1 || sig.Params().Len() != 1 {
+		return false
+	}
+	if b, ok := sig.Results().At(0).Type().Underlying().(*types.Basic); !ok || b.Kind() != types.Bool {
+		return false
+	}
+	_, isSlice := sig.Params().At(0).Type().Underlying().(*types.Slice)
+	return isSlice
 }
